@@ -285,7 +285,7 @@ int32_t psRsaParsePubKeyMem(psPool_t *pool,
 
     rc = psRsaParseAsnPubKey(pool,
             &pubKeyBitString,
-            derLen - (pubKeyBitString - pemOrDerBuf),
+            derLen - (pubKeyBitString - der),
             key,
             sha1KeyHash);
     if (rc != PS_SUCCESS)
